@@ -53,7 +53,22 @@ COMPOSED = ['oneofx', 'switchx', 'recx']
 NEED_KIND = {'C09': 'switch', 'C10': 'oneof', 'C11': 'rec'}
 
 
+FULL_VALUE_SUITES = {'d0-async', 'd0-thread', 'twice', 'candidate-shared', 'opaque-input', 'yield-d0', 'instant', 'once-d0',
+                     'early-failure-values', 'yield'}
+
+
 def suites(prop: str, tier: str) -> t.List[Suite]:
+    sl = _suites(prop, tier)
+    if tier != 'quick':
+        # thorough tier: the deeper bounds (d >= 1, pairs of failures, composed families, gated collaborators) multiply the
+        # plan set; the plans that only vary VALUES stay in the d = 0 suites, where they are explored exhaustively anyway
+        for su in sl:
+            if su.name not in FULL_VALUE_SUITES:
+                su.lite = True
+    return sl
+
+
+def _suites(prop: str, tier: str) -> t.List[Suite]:
     q = tier == 'quick'
     d_hi = 1 if q else 2
     if prop == 'C01':
